@@ -92,6 +92,8 @@ type Env struct {
 	Coinbase common.Address
 	// observed transfers
 	Xfers []Xfer
+	// XferPos, when set, gives the position in the caller's own event stream at which a transfer happens
+	XferPos func() int
 }
 
 // Xfer is one observation of the wrapped Transfer function.
@@ -102,6 +104,7 @@ type Xfer struct {
 	Amt    string    `json:"amt"`
 	Before [2]string `json:"before"`
 	After  [2]string `json:"after"`
+	Pos    int       `json:"pos"`
 }
 
 type EnvOpts struct {
@@ -152,6 +155,9 @@ func NewEnv(o EnvOpts) *Env {
 			x.Before = [2]string{db.GetBalance(from).String(), db.GetBalance(to).String()}
 			acore.Transfer(db, from, to, amt)
 			x.After = [2]string{db.GetBalance(from).String(), db.GetBalance(to).String()}
+			if e.XferPos != nil {
+				x.Pos = e.XferPos()
+			}
 			e.Xfers = append(e.Xfers, x)
 		},
 		GetHash:     blockHash,
